@@ -3,11 +3,14 @@
 \* Emit = TRUE: hist' is printed at every transition = one behaviour per (state, action) pair).
 \* The configurations of each suite (scene latch / tunnel / bridge / resmgr, closers, completion paths, design
 \* as-is / repaired / hypothetical) are listed in Dispose.tla (Cfgs).  hist is excluded from the fingerprint (VIEW).
+\* Every Inv* is  property \/ (a configuration of the code as it was or of a hypothetical design /\ its named deviation);
+\* the strict property against one hypothetical design alone: Dispose_show_<design>.cfg.
+\* State counts (round 3): mc about 1.6e5 distinct states (depth 33), gen about 4.4e4 (1.2e5 behaviours), mcbig / genbig: see evidence.
 CONSTANTS
   Suite = "@@SUITE@@"
   Emit = @@EMIT@@
 INIT Init
 NEXT Next
 VIEW view
-INVARIANTS TypeOK InvAtMostOnce InvExactlyOnce InvNoOver InvTraffic InvNoPanic ClosedError InvLeakFree InvConnOnce
+INVARIANTS TypeOK InvAtMostOnce InvExactlyOnce InvNoOver InvTraffic InvNoPanic ClosedError InvLeakFree InvConnOnce InvStored
 CHECK_DEADLOCK FALSE
